@@ -212,6 +212,16 @@ pub fn main(args: &[String]) -> i32 {
                     .as_ref()
                     .map(|m| xhex(serde_json::to_string(m).unwrap().as_bytes()))
                     .unwrap_or_else(|| "-".into());
+                writeln!(
+                    trace,
+                    "PRE append ? {:032x} {} {} {} {}",
+                    ctx,
+                    toks[2],
+                    hash.as_deref().unwrap_or("-"),
+                    meta_echo,
+                    toks[5]
+                )
+                .unwrap();
                 let r = catch_unwind(AssertUnwindSafe(|| store.append(frame)));
                 let (id, obs) = match r {
                     Ok(Ok(f)) => {
@@ -245,6 +255,12 @@ pub fn main(args: &[String]) -> i32 {
                     .as_ref()
                     .map(|m| xhex(serde_json::to_string(m).unwrap().as_bytes()))
                     .unwrap_or_else(|| "-".into());
+                writeln!(
+                    trace,
+                    "PRE import {:032x} {:032x} {} {} {} {}",
+                    id, ctx, toks[3], toks[4], meta_echo, toks[6]
+                )
+                .unwrap();
                 let r = catch_unwind(AssertUnwindSafe(|| store.insert_frame(&frame)));
                 let obs = match r {
                     Ok(Ok(())) => {
@@ -264,6 +280,7 @@ pub fn main(args: &[String]) -> i32 {
             }
             "remove" => {
                 let id = id_expr(toks[1], &ids).unwrap_or(0);
+                writeln!(trace, "PRE remove {:032x}", id).unwrap();
                 let r = catch_unwind(AssertUnwindSafe(|| store.remove(&id_from_u128(id))));
                 let obs = match r {
                     Ok(Ok(())) => "= unit",
@@ -288,10 +305,12 @@ pub fn main(args: &[String]) -> i32 {
                 (format!("setnow {:x}", now), "= done".into())
             }
             "gcstep" => {
+                writeln!(trace, "PRE gcstep").unwrap();
                 gate.step();
                 ("gcstep".into(), "= done".into())
             }
             "drain" => {
+                writeln!(trace, "PRE drain").unwrap();
                 gate.drain();
                 ("drain".into(), "= done".into())
             }
@@ -365,6 +384,18 @@ pub fn main(args: &[String]) -> i32 {
                     format!("head {} {:032x}", toks[1], ctx),
                     r.map(|f| opt_frame_str(&f)).unwrap_or_else(|_| "= panic".into()),
                 )
+            }
+            "cas" => {
+                // cas <integrity xhex>: is the content retrievable, and does it hash to its name?
+                let h: ssri::Integrity = String::from_utf8(unxhex(toks[1])).unwrap().parse().expect("integrity");
+                let obs = match store.cas_read_sync(&h) {
+                    Ok(bytes) => {
+                        let again = ssri::Integrity::from(&bytes);
+                        format!("= present {} {}", bytes.len(), if again.to_string() == h.to_string() { "hash-ok" } else { "hash-mismatch" })
+                    }
+                    Err(_) => "= missing".to_string(),
+                };
+                (format!("cas {}", toks[1]), obs)
             }
             other => panic!("unknown op {other}"),
         };
